@@ -24,8 +24,13 @@ Public API:
   tc_type(e, scope)            type the real typechecker assigns (scope: name -> type; funcs: name -> sig)
   render_expr(e, scope) / render_program(prog) -> DDP source text (operands fully parenthesised)
   serialize(prog) -> token string for extract/_build/c01 (see extract/c01_driver.ml)
-  Gen(rng).program(...)        random well-typed terminating program
-  float_bits(x) / bits_float(b), lit helpers, BOUNDARY value sets
+  Gen(rng, max_depth, lists, floats, funcs, avoid).program(size)   random well-typed terminating program;
+                               .expr(ty, scope, depth) / .stmts(scope, n, depth, in_loop, fret) / .func(scope) are usable alone
+  cell_key(e, scope) / cells_in(e, scope, set) / tname(ty)         canonical operator-cell keys (`op=DIV lhs=Byte rhs=Kommazahl`)
+  literal_representable_all(e) whether every literal inside e can be written in DDP source
+  float_bits(x) / bits_float(b), literal constructors I F Bo Ch Tx By V lit list_lit, BOUNDARY value sets
+Conventions the renderer relies on: binder names are unique in a program (x<n>, fn<n>); blocks are non-empty; a function
+with a return type ends with a `return`; Referenz arguments are variables or `variable an der Stelle index`.
 """
 import struct
 from decimal import Decimal
@@ -947,7 +952,8 @@ class Gen:
             if not cands:
                 return self.print_stmt(sc, 2)
             v, t = r.choice(cands)
-            if (is_list(t) or t == "T") and r.random() < 0.5:
+            text_replace_ok = not (t == "T" and self.avoid is not None and self.avoid("stmt=TEXT-REPLACE old=2B new=1B"))
+            if (is_list(t) or t == "T") and text_replace_ok and r.random() < 0.5:
                 et = elem(t) if is_list(t) else "C"
                 self.note("assign_index")
                 return [["assign", ["lidx", v, self.small_index()], self.expr(et, sc, 2)]]
